@@ -1,8 +1,1358 @@
-//! C14 — not built yet.
+//! C14 — loading a well-formed SNA / SZX / SCR file yields exactly the described state.
+//! The files come from an *independent writer* in this module (written from the format documents:
+//! zx-state "ZXST" header + chunks, SNA layout, 6912-byte SCR), with random chunk order, unknown
+//! chunks interleaved, RAM pages raw or zlib-compressed (two own encoders: stored blocks and fixed
+//! Huffman with run-length matches; `miniz_oxide`'s deflate is not reachable from this crate without
+//! changing Cargo.lock, its *inflate* inside rustzx-core is what gets exercised). The real code
+//! loads them into fresh and dirty emulators of both models; observed: registers, IFF, IM, halted /
+//! EI-pending / pending prefix, latch + lock, every RAM page through `peek`, the border field and the
+//! painted border, the displayed screen (frame buffer against an own decode), AY read-back and the
+//! audible class of the generated audio, mouse / joystick presence, and a few steps of execution.
+use crate::c13::snap::*;
+use crate::c13::{group_of, Finding};
+use crate::host::*;
 use crate::util::*;
+use std::collections::BTreeMap;
 
-pub fn run(_o: &Opts) -> Report {
+// ---------------------------------------------------------------------------------------------
+// own zlib encoders (RFC 1950/1951)
+
+fn adler32(data: &[u8]) -> u32 {
+    let (mut a, mut b) = (1u32, 0u32);
+    for d in data {
+        a = (a + *d as u32) % 65521;
+        b = (b + a) % 65521;
+    }
+    (b << 16) | a
+}
+
+/// stored (BTYPE=00) blocks of at most `blk` bytes
+fn zlib_stored(data: &[u8], blk: usize) -> Vec<u8> {
+    let mut out = vec![0x78, 0x01];
+    let mut chunks = data.chunks(blk).peekable();
+    if data.is_empty() {
+        out.extend_from_slice(&[1, 0, 0, 0xFF, 0xFF]);
+    }
+    while let Some(c) = chunks.next() {
+        out.push(if chunks.peek().is_none() { 1 } else { 0 });
+        let n = c.len() as u16;
+        out.extend_from_slice(&n.to_le_bytes());
+        out.extend_from_slice(&(!n).to_le_bytes());
+        out.extend_from_slice(c);
+    }
+    out.extend_from_slice(&adler32(data).to_be_bytes());
+    out
+}
+
+struct BitW {
+    out: Vec<u8>,
+    acc: u32,
+    n: u32,
+}
+
+impl BitW {
+    /// LSB-first field (extra bits, block header)
+    fn bits(&mut self, v: u32, n: u32) {
+        self.acc |= v << self.n;
+        self.n += n;
+        while self.n >= 8 {
+            self.out.push(self.acc as u8);
+            self.acc >>= 8;
+            self.n -= 8;
+        }
+    }
+    /// Huffman code: most significant bit first
+    fn code(&mut self, code: u32, len: u32) {
+        for i in (0..len).rev() {
+            self.bits((code >> i) & 1, 1);
+        }
+    }
+    fn lit(&mut self, sym: u32) {
+        match sym {
+            0..=143 => self.code(0x30 + sym, 8),
+            144..=255 => self.code(0x190 + sym - 144, 9),
+            256..=279 => self.code(sym - 256, 7),
+            _ => self.code(0xC0 + sym - 280, 8),
+        }
+    }
+}
+
+/// one fixed-Huffman block (BTYPE=01): literals, and distance-1 matches for runs
+fn zlib_fixed(data: &[u8]) -> Vec<u8> {
+    let mut w = BitW { out: vec![0x78, 0x9C], acc: 0, n: 0 };
+    w.bits(1, 1);
+    w.bits(1, 2);
+    let mut i = 0;
+    while i < data.len() {
+        w.lit(data[i] as u32);
+        let mut run = 0;
+        while i + 1 + run < data.len() && data[i + 1 + run] == data[i] && run < 258 {
+            run += 1;
+        }
+        if run >= 3 {
+            // length code: 3..10 -> 257..264 (no extra bits); longer runs are cut into such pieces
+            let mut left = run;
+            while left >= 3 {
+                let l = left.min(10);
+                w.lit(257 + (l as u32 - 3));
+                w.code(0, 5); // distance code 0 = distance 1
+                left -= l;
+            }
+            i += 1 + (run - left);
+        } else {
+            i += 1;
+        }
+    }
+    w.lit(256);
+    if w.n > 0 {
+        w.bits(0, 8 - w.n);
+    }
+    let mut out = w.out;
+    out.extend_from_slice(&adler32(data).to_be_bytes());
+    out
+}
+
+// ---------------------------------------------------------------------------------------------
+// independent writers
+
+#[derive(Clone, Copy, Debug, PartialEq, Eq)]
+pub enum Comp {
+    Raw,
+    Stored,
+    Fixed,
+}
+
+#[derive(Clone, Debug, PartialEq, Eq)]
+pub enum Ck {
+    Crtr,
+    Z80r,
+    Spcr,
+    Ay,
+    Keyb(u8),
+    Amxm(u8),
+    /// hardware page number, compression
+    Ramp(u8, Comp),
+    /// unknown chunk: id, length (content derived from both)
+    Unknown([u8; 4], usize),
+}
+
+/// What an SZX file of this check says. `st` carries registers (IFF1/IFF2 separately),
+/// `halt` = ZXSTZF_HALTED, `skip` = ZXSTZF_EILAST, border, latch, bank contents, AY, mouse.
+#[derive(Clone, Debug, PartialEq, Eq)]
+pub struct SzxSpec {
+    /// 1 = 48K, 2 = 128K
+    pub mid: u8,
+    pub st: MState,
+    /// chFe: last OUT to FE (low three bits need not equal the border)
+    pub fe: u8,
+    pub cycles: u32,
+    pub memptr: u16,
+    pub fset: bool,
+    pub order: Vec<Ck>,
+}
+
+enum Piece {
+    Lit(Vec<u8>),
+    /// a raw page
+    Page(Bank),
+    /// a compressed page: the really deflated bytes for the code, a tag for the model
+    Comp(Bank, Vec<u8>),
+}
+
+/// hardware page number -> index into `MState::banks`
+pub fn bank_index(m128: bool, page: u8) -> Option<usize> {
+    if m128 {
+        if page < 8 { Some(page as usize) } else { None }
+    } else {
+        match page {
+            5 => Some(0),
+            2 => Some(1),
+            0 => Some(2),
+            _ => None,
+        }
+    }
+}
+
+fn unknown_body(id: &[u8; 4], len: usize) -> Vec<u8> {
+    let mut r = Rng::new(u32::from_le_bytes(*id) as u64 ^ ((len as u64) << 32));
+    r.bytes(len)
+}
+
+impl SzxSpec {
+    fn chunks(&self) -> Vec<([u8; 4], Vec<Piece>)> {
+        let s = &self.st;
+        let mut out = vec![];
+        for ck in &self.order {
+            match ck {
+                Ck::Crtr => {
+                    let mut b = vec![0u8; 32];
+                    b[..13].copy_from_slice(b"verif harness");
+                    b.extend_from_slice(&1u16.to_le_bytes());
+                    b.extend_from_slice(&0u16.to_le_bytes());
+                    b.push(0);
+                    out.push((*b"CRTR", vec![Piece::Lit(b)]));
+                }
+                Ck::Z80r => {
+                    let mut b = vec![];
+                    // AF BC DE HL AF' BC' DE' HL' IX IY SP PC
+                    for k in [0usize, 1, 2, 3, 4, 5, 6, 7, 8, 9, 10, 11] {
+                        b.extend_from_slice(&s.w[k].to_le_bytes());
+                    }
+                    b.push(s.i);
+                    b.push(s.r);
+                    b.push(s.iff1 as u8);
+                    b.push(s.iff2 as u8);
+                    b.push(s.im);
+                    b.extend_from_slice(&self.cycles.to_le_bytes());
+                    b.push(0); // chHoldIntReqCycles
+                    b.push((s.skip as u8) | ((s.halt as u8) << 1) | ((self.fset as u8) << 2));
+                    b.extend_from_slice(&self.memptr.to_le_bytes());
+                    assert_eq!(b.len(), 37);
+                    out.push((*b"Z80R", vec![Piece::Lit(b)]));
+                }
+                Ck::Spcr => {
+                    let b = vec![s.border, s.latch, 0, self.fe, 0, 0, 0, 0];
+                    out.push((*b"SPCR", vec![Piece::Lit(b)]));
+                }
+                Ck::Ay => {
+                    let ay = s.ay.clone().unwrap_or(AyState { sel: 0, regs: [0; 16], enabled: false });
+                    // chFlags: bit 1 = ZXSTAYF_128AY (AY on a 48K machine)
+                    let mut b = vec![if self.mid < 2 && ay.enabled { 2 } else { 0 }, ay.sel];
+                    b.extend_from_slice(&ay.regs);
+                    out.push((*b"AY\0\0", vec![Piece::Lit(b)]));
+                }
+                Ck::Keyb(j) => {
+                    out.push((*b"KEYB", vec![Piece::Lit(vec![0, 0, 0, 0, *j])]));
+                }
+                Ck::Amxm(t) => {
+                    out.push((*b"AMXM", vec![Piece::Lit(vec![*t, 0, 0, 0, 0, 0, 0])]));
+                }
+                Ck::Ramp(page, comp) => {
+                    let bank = bank_index(self.mid >= 2, *page)
+                        .map(|k| s.banks[k].clone())
+                        .unwrap_or(Bank::new(0));
+                    let flags: u16 = if *comp == Comp::Raw { 0 } else { 1 };
+                    let mut head = flags.to_le_bytes().to_vec();
+                    head.push(*page);
+                    let body = match comp {
+                        Comp::Raw => Piece::Page(bank),
+                        Comp::Stored => {
+                            let z = zlib_stored(&bank.bytes(), 5000 + (bank.seed % 50000) as usize);
+                            Piece::Comp(bank, z)
+                        }
+                        Comp::Fixed => {
+                            let z = zlib_fixed(&bank.bytes());
+                            Piece::Comp(bank, z)
+                        }
+                    };
+                    out.push((*b"RAMP", vec![Piece::Lit(head), body]));
+                }
+                Ck::Unknown(id, len) => {
+                    out.push((*id, vec![Piece::Lit(unknown_body(id, *len))]));
+                }
+            }
+        }
+        out
+    }
+
+    /// (bytes for the real code, segment list for the Lean driver)
+    pub fn encode(&self) -> (Vec<u8>, Vec<String>) {
+        let mut real = b"ZXST".to_vec();
+        real.extend_from_slice(&[1, 4, self.mid, 0]);
+        let mut segs = vec![format!("h{}", hex(&real))];
+        for (id, pieces) in self.chunks() {
+            let (mut rl, mut ml) = (0usize, 0usize);
+            for p in &pieces {
+                match p {
+                    Piece::Lit(b) => {
+                        rl += b.len();
+                        ml += b.len();
+                    }
+                    Piece::Page(_) => {
+                        rl += PAGE;
+                        ml += PAGE;
+                    }
+                    Piece::Comp(b, z) => {
+                        rl += z.len();
+                        ml += 4 + b.desc().len();
+                    }
+                }
+            }
+            real.extend_from_slice(&id);
+            real.extend_from_slice(&(rl as u32).to_le_bytes());
+            let mut mh = id.to_vec();
+            mh.extend_from_slice(&(ml as u32).to_le_bytes());
+            segs.push(format!("h{}", hex(&mh)));
+            for p in pieces {
+                match p {
+                    Piece::Lit(b) => {
+                        real.extend_from_slice(&b);
+                        if !b.is_empty() {
+                            segs.push(format!("h{}", hex(&b)));
+                        }
+                    }
+                    Piece::Page(b) => {
+                        real.extend_from_slice(&b.bytes());
+                        segs.push(format!("p{}", b.desc()));
+                    }
+                    Piece::Comp(b, z) => {
+                        real.extend_from_slice(&z);
+                        segs.push(format!("z{}", b.desc()));
+                    }
+                }
+            }
+        }
+        (real, segs)
+    }
+
+    pub fn text(&self) -> String {
+        let order: Vec<String> = self
+            .order
+            .iter()
+            .map(|c| match c {
+                Ck::Crtr => "C".to_string(),
+                Ck::Z80r => "Z".to_string(),
+                Ck::Spcr => "S".to_string(),
+                Ck::Ay => "A".to_string(),
+                Ck::Keyb(j) => format!("K{:x}", j),
+                Ck::Amxm(t) => format!("M{:x}", t),
+                Ck::Ramp(p, c) => format!(
+                    "R{}{}",
+                    p,
+                    match c {
+                        Comp::Raw => "r",
+                        Comp::Stored => "s",
+                        Comp::Fixed => "f",
+                    }
+                ),
+                Ck::Unknown(id, len) => format!("U{}:{:x}", hex(id), len),
+            })
+            .collect();
+        format!(
+            "szx mid={} fe={:02x} cyc={:x} mp={:04x} fset={} order={} st {}",
+            self.mid,
+            self.fe,
+            self.cycles,
+            self.memptr,
+            self.fset as u8,
+            order.join(","),
+            self.st.line()
+        )
+    }
+
+    pub fn parse(s: &str) -> Option<SzxSpec> {
+        let (head, st) = s.split_once(" st ")?;
+        let kv = kv_of(head);
+        let h = |k: &str| u32::from_str_radix(kv.get(k).map(|x| x.as_str()).unwrap_or("0"), 16).unwrap_or(0);
+        let mut order = vec![];
+        for t in kv.get("order")?.split(',') {
+            let (c, rest) = t.split_at(1);
+            order.push(match c {
+                "C" => Ck::Crtr,
+                "Z" => Ck::Z80r,
+                "S" => Ck::Spcr,
+                "A" => Ck::Ay,
+                "K" => Ck::Keyb(u8::from_str_radix(rest, 16).ok()?),
+                "M" => Ck::Amxm(u8::from_str_radix(rest, 16).ok()?),
+                "R" => {
+                    let (p, c) = rest.split_at(rest.len() - 1);
+                    Ck::Ramp(
+                        p.parse().ok()?,
+                        match c {
+                            "s" => Comp::Stored,
+                            "f" => Comp::Fixed,
+                            _ => Comp::Raw,
+                        },
+                    )
+                }
+                "U" => {
+                    let (id, len) = rest.split_once(':')?;
+                    let b = unhex(id);
+                    Ck::Unknown([b[0], b[1], b[2], b[3]], usize::from_str_radix(len, 16).ok()?)
+                }
+                _ => return None,
+            });
+        }
+        Some(SzxSpec {
+            mid: h("mid") as u8,
+            st: MState::parse(st),
+            fe: h("fe") as u8,
+            cycles: h("cyc"),
+            memptr: h("mp") as u16,
+            fset: h("fset") != 0,
+            order,
+        })
+    }
+}
+
+/// SNA written from the layout: `I HL' DE' BC' AF' HL DE BC IY IX IFF2<<2 R AF SP IM border`,
+/// then (48K) the RAM with PC pushed, or (128K) banks 5, 2, n, `PC latch 0`, the rest ascending.
+pub fn write_sna(st: &MState) -> (Vec<u8>, Vec<String>) {
+    let w = &st.w;
+    let mut sp = w[10];
+    let mut img = st.clone();
+    if !st.m128 {
+        img.poke(sp.wrapping_sub(1), (w[11] >> 8) as u8);
+        img.poke(sp.wrapping_sub(2), w[11] as u8);
+        sp = sp.wrapping_sub(2);
+    }
+    let mut h = vec![st.i];
+    for k in [7usize, 6, 5, 4, 3, 2, 1, 9, 8] {
+        h.extend_from_slice(&w[k].to_le_bytes());
+    }
+    h.push((st.iff2 as u8) << 2);
+    h.push(st.r);
+    h.extend_from_slice(&w[0].to_le_bytes());
+    h.extend_from_slice(&sp.to_le_bytes());
+    h.push(st.im);
+    h.push(st.border);
+    assert_eq!(h.len(), 27);
+    let mut real = h.clone();
+    let mut segs = vec![format!("h{}", hex(&h))];
+    let mut put = |b: &Bank| {
+        real.extend_from_slice(&b.bytes());
+        segs.push(format!("p{}", b.desc()));
+    };
+    if st.m128 {
+        let n = (st.latch & 7) as usize;
+        put(&img.banks[5]);
+        put(&img.banks[2]);
+        put(&img.banks[n]);
+        let sec = [w[11] as u8, (w[11] >> 8) as u8, st.latch, 0];
+        real.extend_from_slice(&sec);
+        segs.push(format!("h{}", hex(&sec)));
+        let mut put = |b: &Bank| {
+            real.extend_from_slice(&b.bytes());
+            segs.push(format!("p{}", b.desc()));
+        };
+        for k in [0usize, 1, 3, 4, 6, 7] {
+            if k != n {
+                put(&img.banks[k]);
+            }
+        }
+    } else {
+        for k in 0..3 {
+            put(&img.banks[k]);
+        }
+    }
+    (real, segs)
+}
+
+// ---------------------------------------------------------------------------------------------
+// cases
+
+#[derive(Clone, Debug, PartialEq, Eq)]
+pub enum FileSpec {
+    Szx(SzxSpec),
+    Sna(MState),
+    /// 6912 bytes from a seed
+    Scr(u64),
+}
+
+#[derive(Clone, Debug)]
+pub struct Case {
+    pub file: FileSpec,
+    pub recv: MState,
+}
+
+impl Case {
+    pub fn text(&self) -> String {
+        let f = match &self.file {
+            FileSpec::Szx(s) => s.text(),
+            FileSpec::Sna(s) => format!("sna st {}", s.line()),
+            FileSpec::Scr(seed) => format!("scr seed={:x}", seed),
+        };
+        format!("{} || recv {}", f, self.recv.line())
+    }
+    pub fn parse(s: &str) -> Option<Case> {
+        let (f, r) = s.split_once("||")?;
+        let f = f.trim();
+        let recv = MState::parse(r.trim().strip_prefix("recv")?);
+        let file = if f.starts_with("szx ") {
+            FileSpec::Szx(SzxSpec::parse(f)?)
+        } else if let Some(rest) = f.strip_prefix("sna st ") {
+            FileSpec::Sna(MState::parse(rest))
+        } else {
+            let kv = kv_of(f);
+            FileSpec::Scr(u64::from_str_radix(kv.get("seed")?, 16).ok()?)
+        };
+        Some(Case { file, recv })
+    }
+    fn kind(&self) -> &'static str {
+        match self.file {
+            FileSpec::Szx(_) => "szx",
+            FileSpec::Sna(_) => "sna",
+            FileSpec::Scr(_) => "scr",
+        }
+    }
+    fn file_m128(&self) -> bool {
+        match &self.file {
+            FileSpec::Szx(s) => s.mid >= 2,
+            FileSpec::Sna(s) => s.m128,
+            FileSpec::Scr(_) => self.recv.m128,
+        }
+    }
+}
+
+fn scr_bytes(seed: u64) -> Vec<u8> {
+    let mut r = Rng::new(seed);
+    let mut v = r.bytes(6912);
+    // no FLASH attributes in one half of the cells so that both decode paths are seen
+    for (k, a) in v[6144..].iter_mut().enumerate() {
+        if k % 2 == 0 {
+            *a &= 0x7F;
+        }
+    }
+    v
+}
+
+// ---------------------------------------------------------------------------------------------
+// observation of the real emulator (everything C13 observes, plus devices)
+
+/// expected pixel classes of the displayed page: (paper-or-ink colour with bright) per pixel; a
+/// FLASH cell may show either phase
+fn display_matches(e: &Emu, page: &[u8]) -> bool {
+    let fb = e.screen_buffer();
+    for y in 0..192usize {
+        for xb in 0..32usize {
+            let b = page[((y & 0xC0) << 5) | ((y & 7) << 8) | ((y & 0x38) << 2) | xb];
+            let a = page[0x1800 + (y >> 3) * 32 + xb];
+            let bright = ((a >> 6) & 1) << 3;
+            let (ink, paper) = ((a & 7) | bright, ((a >> 3) & 7) | bright);
+            for bit in 0..8 {
+                let on = b & (0x80 >> bit) != 0;
+                let px = fb.px[y * fb.w + xb * 8 + bit];
+                let normal = if on { ink } else { paper };
+                let flashed = if on { paper } else { ink };
+                if px != normal && !(a & 0x80 != 0 && px == flashed) {
+                    return false;
+                }
+            }
+        }
+    }
+    true
+}
+
+/// audible class of one frame of samples: zero crossings around the mean
+fn audio_class(samples: &[f32]) -> &'static str {
+    if samples.is_empty() {
+        return "none";
+    }
+    let mean: f32 = samples.iter().sum::<f32>() / samples.len() as f32;
+    let amp = samples.iter().map(|s| (s - mean).abs()).fold(0.0f32, f32::max);
+    if amp < 1e-3 {
+        return "silent";
+    }
+    let thr = amp * 0.25;
+    let mut state = 0i32;
+    let mut crossings = 0;
+    for s in samples {
+        let d = s - mean;
+        let ns = if d > thr { 1 } else if d < -thr { -1 } else { state };
+        if ns != state && state != 0 {
+            crossings += 1;
+        }
+        state = ns;
+    }
+    match crossings {
+        0..=3 => "silent",
+        4..=24 => "low",
+        25..=90 => "mid",
+        _ => "high",
+    }
+}
+
+/// audible class the 14 chip registers stand for (channel A tone only; see `ay_preset`)
+fn regs_class(present: bool, chip: &[u8]) -> &'static str {
+    if !present || chip.len() < 14 {
+        return "silent";
+    }
+    let vol = chip[8] & 0x1F;
+    let tone_on = chip[7] & 1 == 0;
+    if vol == 0 || !tone_on {
+        return "silent";
+    }
+    let tp = (chip[0] as u32 | ((chip[1] as u32 & 0x0F) << 8)).max(1);
+    // crossings per 1/50 s: 2 * f / 50, f = 1773400 / (16 * TP)
+    let crossings = 2 * 1_773_400 / (16 * tp) / 50;
+    match crossings {
+        0..=3 => "silent",
+        4..=24 => "low",
+        25..=90 => "mid",
+        _ => "high",
+    }
+}
+
+/// AY register sets with a known audible class: channel A tone at one of three well separated
+/// pitches or silence; everything that is not audible is random.
+fn ay_preset(r: &mut Rng) -> [u8; 16] {
+    let mut g = [0u8; 16];
+    for x in g.iter_mut() {
+        *x = r.u8();
+    }
+    let tp: u16 = *r.pick(&[25u16, 100, 400]);
+    g[0] = tp as u8;
+    g[1] = (g[1] & 0xF0) | (tp >> 8) as u8;
+    // mixer: tone A on or off, everything else off
+    g[7] = (g[7] & 0xC0) | 0x3E | if r.chance(1, 4) { 1 } else { 0 };
+    g[8] = if r.chance(1, 5) { 0 } else { 0x0F };
+    g[9] = 0;
+    g[10] = 0;
+    g
+}
+
+pub struct Obs {
+    pub kv: BTreeMap<String, String>,
+}
+
+/// Destructive: leaves the emulator parked in a loop. `shown_page` = what the spec expects on the
+/// display (bytes of the displayed page), if known.
+fn observe_all(e: &mut Emu, m128: bool, shown_page: Option<&[u8]>, ay_expect_regs: &[u8]) -> BTreeMap<String, String> {
+    let mut m = observe(e, m128);
+    // devices present? (frame clock moved forward into the bottom border, where an unclaimed port reads 0xFF)
+    if e.verif_frame_clocks() < 68000 {
+        e.verif_set_frame_clocks(68000);
+    }
+    e.send_mouse_button(rustzx_core::zx::mouse::kempston::KempstonMouseButton::Left, true);
+    let mb = e.verif_read_io(0xFADF);
+    m.insert("mouse".into(), ((mb == 0xFE) as u8).to_string());
+    e.send_kempston_key(rustzx_core::zx::joy::kempston::KempstonKey::Fire, true);
+    let kj = e.verif_read_io(0x001F);
+    // with the mouse present every joystick address is decoded to a mouse register first
+    m.insert("kemp".into(), if mb == 0xFE { "?".to_string() } else { ((kj == 0x10) as u8).to_string() });
+    // park the CPU and let three frames pass: border, display, audio
+    e.verif_write_mem(0x8000, 0x18, 0);
+    e.verif_write_mem(0x8001, 0xFE, 0);
+    {
+        let c = e.verif_cpu();
+        c.regs.set_pc(0x8000);
+        c.regs.set_iff1(false);
+        c.halted = false;
+        c.skip_interrupt = false;
+        c.verif_set_active_prefix(rustzx_z80::Prefix::None);
+    }
+    let mut last = vec![];
+    for _ in 0..3 {
+        while e.next_audio_sample().is_some() {}
+        let _ = e.emulate_frames(std::time::Duration::from_secs(1));
+        last.clear();
+        while let Some(s) = e.next_audio_sample() {
+            last.push(s.left + s.right);
+        }
+    }
+    // AY read-back (after the audio was taken: the marker write below reprograms one chip register):
+    // value at the selected register, then find the selection with a marker
+    let v0 = e.verif_read_io(0xFFFD);
+    let mut marker = !v0;
+    while ay_expect_regs.contains(&marker) || marker == v0 {
+        marker = marker.wrapping_add(0x35);
+    }
+    e.verif_write_io(0xBFFD, marker);
+    let mut regs = [0u8; 16];
+    for k in 0..16u8 {
+        e.verif_write_io(0xFFFD, k);
+        regs[k as usize] = e.verif_read_io(0xFFFD);
+    }
+    let cands: Vec<usize> = (0..16).filter(|k| regs[*k] == marker).collect();
+    let sel = if cands.len() == 1 { format!("{:x}", cands[0]) } else { "?".to_string() };
+    if cands.len() == 1 {
+        regs[cands[0]] = v0;
+        e.verif_write_io(0xFFFD, cands[0] as u8);
+        e.verif_write_io(0xBFFD, v0);
+    }
+    m.insert("aysel".into(), sel);
+    m.insert("ayregs".into(), hex(&regs));
+    let bb = e.border_buffer();
+    let probe = [bb.px[0], bb.px[bb.w * 5 + 160], bb.px[bb.w * (bb.h - 1) + bb.w - 1]];
+    m.insert(
+        "bdev".into(),
+        if probe[0] == probe[1] && probe[1] == probe[2] { format!("{:02x}", probe[0] & 7) } else { format!("mixed{:?}", probe) },
+    );
+    m.insert("audio".into(), audio_class(&last).to_string());
+    if let Some(p) = shown_page {
+        m.insert("disp".into(), if display_matches(e, p) { "match".into() } else { "differs".into() });
+    }
+    m
+}
+
+// ---------------------------------------------------------------------------------------------
+// one case
+
+pub struct Ctx {
+    pub model: Model,
+}
+
+/// keys compared against the spec (the property's list) and additionally against the model
+const SPEC_KEYS: [&str; 28] = [
+    "af", "bc", "de", "hl", "afx", "bcx", "dex", "hlx", "ix", "iy", "sp", "pc", "i", "r", "iff", "im", "halt",
+    "skip", "mid", "lat", "lk", "bd", "bdev", "pages", "aysel", "ayregs", "audio", "mouse",
+];
+const MODEL_KEYS: [&str; 3] = ["sb", "pfx", "kemp"];
+
+fn expected_shown(spec: &BTreeMap<String, String>, file_pages: &BTreeMap<u8, Vec<u8>>, recv: &MState) -> Option<Vec<u8>> {
+    // the displayed page according to the spec's latch; its contents from the file if the file has
+    // the page, else from the receiver
+    let m128 = spec.get("pages").map_or(false, |p| !p.split(',').nth(1).unwrap_or("-").starts_with('-'));
+    let page: u8 = if m128 {
+        let lat = u8::from_str_radix(spec.get("lat")?, 16).ok()?;
+        if lat & 8 != 0 { 7 } else { 5 }
+    } else {
+        5
+    };
+    if let Some(p) = file_pages.get(&page) {
+        return Some(p.clone());
+    }
+    bank_index(recv.m128, page).map(|k| recv.banks[k].bytes())
+}
+
+pub fn check_case(cx: &mut Ctx, case: &Case, mut rep: Option<&mut Report>) -> Vec<Finding> {
+    let mut out = vec![];
+    let model = &mut cx.model;
+    assert_eq!(model.ask(&format!("mach 1 {}", case.recv.line())), "ok");
+    let mut rcv = build(&case.recv);
+    let (bytes, segs, file_pages, ay_regs): (Vec<u8>, Vec<String>, BTreeMap<u8, Vec<u8>>, [u8; 16]) = match &case.file {
+        FileSpec::Szx(s) => {
+            let (b, sg) = s.encode();
+            let mut fp = BTreeMap::new();
+            for ck in &s.order {
+                if let Ck::Ramp(p, _) = ck {
+                    if let Some(k) = bank_index(s.mid >= 2, *p) {
+                        fp.insert(*p, s.st.banks[k].bytes());
+                    }
+                }
+            }
+            (b, sg, fp, s.st.ay.as_ref().map_or([0; 16], |a| a.regs))
+        }
+        FileSpec::Sna(s) => {
+            let (b, sg) = write_sna(s);
+            let mut img = s.clone();
+            if !s.m128 {
+                img.poke(s.sp().wrapping_sub(1), (s.pc() >> 8) as u8);
+                img.poke(s.sp().wrapping_sub(2), s.pc() as u8);
+            }
+            let mut fp = BTreeMap::new();
+            for p in 0..8u8 {
+                if let Some(k) = bank_index(s.m128, p) {
+                    fp.insert(p, img.banks[k].bytes());
+                }
+            }
+            (b, sg, fp, [0; 16])
+        }
+        FileSpec::Scr(seed) => {
+            let b = scr_bytes(*seed);
+            let mut page = bank_index(case.recv.m128, 5).map(|k| case.recv.banks[k].bytes()).unwrap();
+            page[..6912].copy_from_slice(&b);
+            let mut fp = BTreeMap::new();
+            fp.insert(5u8, page);
+            (b.clone(), vec![format!("h{}", hex(&b))], fp, [0; 16])
+        }
+    };
+    let mut first = true;
+    for chunk in segs.chunks(6) {
+        model.ask(&format!("{} {}", if first { "file" } else { "fileadd" }, chunk.join(" ")));
+        first = false;
+    }
+    let ans = model.ask(&format!("load {} 1 2", case.kind()));
+    let mut parts = ans.split(" | ");
+    let mpart = parts.next().unwrap_or("");
+    let spart = parts.next().unwrap_or("spec none").trim_start_matches("spec ");
+    let specb_pc = parts.next().map(|p| p.trim_start_matches("specb ").to_string());
+    let spec = if spart == "none" { None } else { Some(kv_of(spart)) };
+    let outcome = match &case.file {
+        FileSpec::Szx(_) => load_szx(&mut rcv, &bytes),
+        FileSpec::Sna(_) => load_sna(&mut rcv, &bytes),
+        FileSpec::Scr(_) => load_scr(&mut rcv, &bytes),
+    };
+    if let Some(r) = rep.as_deref_mut() {
+        r.eval();
+    }
+    let mismatch = case.file_m128() != case.recv.m128;
+    let model_outcome = if mpart.starts_with("ok") { "ok".to_string() } else { mpart.to_string() };
+    if mismatch {
+        // a file for the other model: must be rejected, or applied with the right layout — never panic,
+        // never a wrong layout. The spec decides "rejected"; an `ok` is judged by the memory comparison below.
+        if outcome == Outcome::Panic {
+            out.push(Finding { phase: "mismatch", group: "outcome".into(), kind: Kind::SpecViolated, got: outcome.text(), want: "err (rejected)".into() });
+        } else if outcome == Outcome::Ok {
+            // what the file says about 0x4000..0xFFFF must be what the CPU now sees
+            let mut wrong = false;
+            for (page, base) in [(5u8, 0x4000u32), (2, 0x8000)] {
+                if let Some(p) = file_pages.get(&page) {
+                    let v: Vec<u8> = (0..PAGE as u32).map(|o| rcv.peek((base + o) as u16)).collect();
+                    if &v != p {
+                        wrong = true;
+                    }
+                }
+            }
+            if wrong {
+                out.push(Finding { phase: "mismatch", group: "layout".into(), kind: Kind::SpecViolated, got: "ok, but 0x4000-0xBFFF does not hold the file's pages 5 and 2".into(), want: "err (rejected) or the file's layout".into() });
+            }
+        }
+        if outcome.text() != model_outcome {
+            out.push(Finding { phase: "mismatch", group: "outcome".into(), kind: Kind::ModelMismatch, got: outcome.text(), want: model_outcome });
+        }
+        if let Some(r) = rep.as_deref_mut() {
+            r.class(format!("mismatch {} file {} machine -> {}", case.kind(), if case.file_m128() { "128k" } else { "48k" }, outcome.text()));
+        }
+        return out;
+    }
+    if spec.is_some() && outcome != Outcome::Ok {
+        out.push(Finding { phase: "load", group: "outcome".into(), kind: Kind::SpecViolated, got: outcome.text(), want: "ok".into() });
+    } else if outcome.text() != model_outcome {
+        out.push(Finding { phase: "load", group: "outcome".into(), kind: Kind::ModelMismatch, got: outcome.text(), want: model_outcome });
+    }
+    if outcome != Outcome::Ok {
+        return out;
+    }
+    let mm = if mpart.starts_with("ok ") { Some(kv_of(&mpart[3..])) } else { None };
+    let shown = spec.as_ref().and_then(|s| expected_shown(s, &file_pages, &case.recv));
+    let mut avoid = ay_regs.to_vec();
+    avoid.extend_from_slice(&case.recv.ay.as_ref().map_or([0u8; 16], |a| a.regs));
+    let mut got = observe_all(&mut rcv, case.recv.m128, shown.as_deref(), &avoid);
+    // derived keys for model and spec: audible class, display
+    let derive = |kv: &BTreeMap<String, String>| -> BTreeMap<String, String> {
+        let mut kv = kv.clone();
+        let present = kv.get("aypres").map_or(false, |v| v == "1");
+        let chip = unhex(kv.get("aychip").map(|s| s.as_str()).unwrap_or(""));
+        kv.insert("audio".into(), regs_class(present, &chip).to_string());
+        kv
+    };
+    let spec_d = spec.as_ref().map(derive);
+    let model_d = mm.as_ref().map(derive);
+    // SCR leaves registers to the loader: only memory, display and what must not change are judged
+    let spec_keys: Vec<&str> = match case.file {
+        FileSpec::Scr(_) => vec!["lat", "lk", "bd", "bdev", "pages", "mouse"],
+        _ => SPEC_KEYS.to_vec(),
+    };
+    let mut seen: Vec<String> = vec![];
+    if let Some(sd) = &spec_d {
+        for (k, g, w) in diff_obs(&got, sd, &spec_keys) {
+            // ZXSTZF_HALTED: either reading of where PC points is accepted
+            if k == "pc" {
+                if let Some(pcb) = &specb_pc {
+                    if &g == pcb {
+                        continue;
+                    }
+                }
+            }
+            // SCR: the loader parks the CPU in a loop it writes at 0x8000 (page 2); the property says nothing about it
+            if k == "page2" && matches!(case.file, FileSpec::Scr(_)) {
+                continue;
+            }
+            let grp = group_of(&k);
+            if !seen.contains(&grp) {
+                seen.push(grp.clone());
+                out.push(Finding { phase: "load", group: grp, kind: Kind::SpecViolated, got: format!("{}={}", k, g), want: format!("{}={}", k, w) });
+            }
+        }
+        // display: the frame buffer must show the page the spec says is displayed
+        if got.get("disp").map_or(false, |d| d != "match") && !seen.contains(&"paging".to_string()) && !seen.contains(&"ram".to_string()) {
+            seen.push("display".into());
+            out.push(Finding { phase: "load", group: "display".into(), kind: Kind::SpecViolated, got: "frame buffer differs from the decoded page".into(), want: "display shows the described page".into() });
+        }
+    }
+    if let Some(md) = &model_d {
+        let mut ks = spec_keys.clone();
+        ks.extend_from_slice(&MODEL_KEYS);
+        if matches!(case.file, FileSpec::Scr(_)) {
+            ks.extend_from_slice(&["af", "bc", "de", "hl", "sp", "pc", "iff", "halt", "skip", "mid"]);
+        }
+        for (k, g, w) in diff_obs(&got, md, &ks) {
+            let grp = group_of(&k);
+            if !seen.contains(&grp) {
+                seen.push(grp.clone());
+                out.push(Finding { phase: "load", group: grp, kind: Kind::ModelMismatch, got: format!("{}={}", k, g), want: format!("{}={}", k, w) });
+            }
+        }
+    }
+    got.remove("disp");
+    // continued execution: a second receiver loads the same file and is compared, step by step, with an
+    // emulator *built* in the described state (complete files only; the frame clock of the built one is
+    // moved forward to the loaded one's)
+    if out.is_empty() && spec.is_some() {
+        let described: Option<MState> = match &case.file {
+            FileSpec::Szx(s) => {
+                let complete = (if s.mid >= 2 { (0..8u8).collect::<Vec<_>>() } else { vec![0u8, 2, 5] })
+                    .iter()
+                    .all(|p| s.order.iter().any(|k| matches!(k, Ck::Ramp(q, _) if q == p)));
+                if complete && s.order.contains(&Ck::Z80r) && s.order.contains(&Ck::Spcr) {
+                    let mut d = s.st.clone();
+                    d.pfx = 0;
+                    Some(d)
+                } else {
+                    None
+                }
+            }
+            FileSpec::Sna(s) => {
+                let mut d = s.clone();
+                if !s.m128 {
+                    d.poke(s.sp().wrapping_sub(1), (s.pc() >> 8) as u8);
+                    d.poke(s.sp().wrapping_sub(2), s.pc() as u8);
+                }
+                d.ay = case.recv.ay.clone();
+                Some(d)
+            }
+            FileSpec::Scr(_) => None,
+        };
+        if let Some(d) = described {
+            let mut a = build(&case.recv);
+            let ok = match &case.file {
+                FileSpec::Szx(_) => load_szx(&mut a, &bytes),
+                _ => load_sna(&mut a, &bytes),
+            };
+            if ok == Outcome::Ok {
+                let mut b = build(&d);
+                if a.verif_frame_clocks() >= b.verif_frame_clocks() {
+                    b.verif_set_frame_clocks(a.verif_frame_clocks());
+                    let ra = run_steps(&mut a, 5);
+                    let rb = run_steps(&mut b, 5);
+                    if let Some(r) = rep.as_deref_mut() {
+                        r.eval();
+                        r.count("continued_execution", if d.halt { "halted" } else if d.skip { "ei-pending" } else { "running" });
+                    }
+                    if ra != rb {
+                        out.push(Finding { phase: "continue", group: "execution".into(), kind: Kind::SpecViolated, got: ra, want: rb });
+                    }
+                }
+            }
+        }
+    }
+    if let Some(r) = rep.as_deref_mut() {
+        r.eval();
+        let extra = match &case.file {
+            FileSpec::Szx(s) => format!(
+                "halted={} eilast={} comp={} unknown={} ay={} mouse={}",
+                s.st.halt as u8,
+                s.st.skip as u8,
+                s.order.iter().any(|c| matches!(c, Ck::Ramp(_, Comp::Stored) | Ck::Ramp(_, Comp::Fixed))) as u8,
+                s.order.iter().any(|c| matches!(c, Ck::Unknown(..))) as u8,
+                s.order.contains(&Ck::Ay) as u8,
+                s.order.iter().any(|c| matches!(c, Ck::Amxm(_))) as u8
+            ),
+            FileSpec::Sna(s) => format!("n={} lock={}", s.latch & 7, s.locked() as u8),
+            FileSpec::Scr(_) => String::new(),
+        };
+        r.class(format!(
+            "{} {} {} recv[halt={} pfx={} lock={}] audio={}",
+            case.kind(),
+            if case.recv.m128 { "128k" } else { "48k" },
+            extra,
+            case.recv.halt as u8,
+            (case.recv.pfx != 0) as u8,
+            case.recv.locked() as u8,
+            got.get("audio").cloned().unwrap_or_default()
+        ));
+    }
+    out
+}
+
+// ---------------------------------------------------------------------------------------------
+// generators
+
+pub fn random_szx(r: &mut Rng, m128: bool) -> SzxSpec {
+    let mut st = crate::c13::random_state(r, m128, true);
+    st.halt = r.chance(1, 6);
+    st.skip = r.chance(1, 6);
+    st.iff1 = r.bool();
+    st.iff2 = r.bool();
+    st.pfx = 0;
+    if st.halt {
+        // the file keeps PC at the HALT opcode (libspectrum/Fuse reading); code after it is distinguishable
+        let pc = st.pc();
+        st.poke(pc, 0x76);
+        st.poke(pc.wrapping_add(1), 0x3C);
+        st.poke(pc.wrapping_add(2), 0x3C);
+    }
+    st.ay = Some(AyState { sel: r.below(16) as u8, regs: ay_preset(r), enabled: m128 || r.chance(1, 2) });
+    st.mouse = r.chance(1, 3);
+    let mid = if m128 { 2 } else { 1 };
+    let fe = if r.chance(1, 2) { st.border | (r.u8() & 0x18) } else { r.u8() & 0x1F };
+    let mut order = vec![Ck::Z80r, Ck::Spcr];
+    if r.chance(3, 4) {
+        order.insert(0, Ck::Crtr);
+    }
+    if m128 || r.chance(3, 4) {
+        order.push(Ck::Ay);
+    }
+    if r.chance(1, 2) {
+        order.push(Ck::Keyb(*r.pick(&[0u8, 1, 8])));
+    }
+    if r.chance(2, 3) {
+        order.push(Ck::Amxm(if st.mouse { 2 } else { *r.pick(&[0u8, 1]) }));
+    } else {
+        st.mouse = false; // without the chunk the receiver's device stays: handled by the spec through `prev`
+    }
+    let pages: Vec<u8> = if m128 { (0..8).collect() } else { vec![5, 2, 0] };
+    for p in pages {
+        // now and then a page is left out (the receiver's page then stays)
+        if r.chance(1, 12) {
+            continue;
+        }
+        let comp = match r.below(3) {
+            0 => Comp::Raw,
+            1 => Comp::Stored,
+            _ => Comp::Fixed,
+        };
+        order.push(Ck::Ramp(p, comp));
+    }
+    for _ in 0..r.below(3) {
+        let id = *r.pick(&[*b"JOY\0", *b"ZXAT", *b"TAPE", *b"B128", *b"xyzw", *b"DRUM", *b"ROM\0"]);
+        order.push(Ck::Unknown(id, r.below(40) as usize));
+    }
+    // any chunk order (CRTR need not be first for a reader that walks chunks)
+    for k in (1..order.len()).rev() {
+        let j = r.below(k as u64 + 1) as usize;
+        order.swap(k, j);
+    }
+    SzxSpec { mid, st, fe, cycles: if r.chance(1, 3) { r.below(16) as u32 } else { r.below(60000) as u32 }, memptr: r.u16(), fset: r.bool(), order }
+}
+
+fn random_recv(r: &mut Rng, m128: bool) -> MState {
+    let mut s = if r.chance(1, 4) { MState::fresh(m128) } else { crate::c13::random_state(r, m128, false) };
+    s.ay = Some(AyState { sel: r.below(16) as u8, regs: if r.chance(1, 3) { [0; 16] } else { ay_preset(r) }, enabled: m128 || r.chance(1, 2) });
+    s.mouse = r.chance(1, 3);
+    s.kemp = r.chance(1, 3);
+    s
+}
+
+pub fn run(o: &Opts) -> Report {
     let mut rep = Report::new("C14");
-    rep.notes.push("not built yet".into());
+    rep.rule = "files from the harness's own SZX/SNA/SCR writer: random machine states (registers, IFF1/IFF2, IM, HALTED, \
+EILAST, every 7FFD value, border with an unrelated chFe, AY register sets with a known audible class, mouse type), SZX chunks \
+in random order with unknown chunks interleaved, pages raw / stored-deflate / fixed-Huffman-deflate and sometimes missing; \
+loaded into fresh and dirty emulators (random registers/RAM/AY, halted, EI-pending, mid prefix, paging locked, devices \
+present) of the matching model and, for one file in seven, of the other model; compared with the model's szxLoad/snaLoad/\
+scrLoad and with what the spec says the file describes: registers, IFF, IM, halted/EI/prefix, latch, lock, border field, \
+painted border, all RAM pages via peek, displayed screen, AY selection/registers/audible class, mouse; distinct = (format, \
+machine, halted/EILAST/compression/unknown/AY/mouse flags, receiver halt/prefix/lock, audible class) of completed loads and \
+(format, machines, outcome) of mismatched ones"
+        .into();
+    rep.notes.push("zlib streams are produced by two encoders inside the harness (stored blocks; one fixed-Huffman block with distance-1 matches): miniz_oxide's deflate is not reachable without changing Cargo.lock".into());
+    let (fx, notes) = detect_fixes();
+    rep.notes.extend(notes);
+    rep.notes.push(format!("repairs detected in the tree under test (model variant used): {}", fx_text(fx)));
+    let mut cx = Ctx { model: Model::spawn(&o.model, "C14") };
+    assert_eq!(cx.model.ask(&format!("fx {:x}", fx)), "ok");
+
+    if let Some(text) = &o.replay {
+        if let Some(case) = Case::parse(text) {
+            rep.sample(J::s(case.text()));
+            let fs = check_case(&mut cx, &case, Some(&mut rep));
+            for f in &fs {
+                record(&mut cx, &mut rep, &case, f);
+            }
+        } else {
+            rep.notes.push("replay case could not be parsed".into());
+        }
+        return rep;
+    }
+
+    let mut rng = Rng::new(o.seed ^ 0xC14);
+    let n = o.n(260, 26_000);
+    for k in 0..n {
+        let mut r = rng.fork();
+        let m128 = r.bool();
+        let file = match k % 10 {
+            0 | 1 => FileSpec::Sna({
+                let mut s = crate::c13::random_state(&mut r, m128, true);
+                s.halt = false;
+                s.skip = false;
+                s.iff1 = s.iff2;
+                s
+            }),
+            2 => FileSpec::Scr(r.next()),
+            _ => FileSpec::Szx(random_szx(&mut r, m128)),
+        };
+        let recv_m128 = if r.chance(1, 7) && !matches!(file, FileSpec::Scr(_)) { !m128 } else { m128 };
+        let case = Case { file, recv: random_recv(&mut r, recv_m128) };
+        rep.count("format", case.kind());
+        rep.count("machines", format!("file {} into {}", if case.file_m128() { "128k" } else { "48k" }, if case.recv.m128 { "128k" } else { "48k" }));
+        if let FileSpec::Szx(s) = &case.file {
+            for c in &s.order {
+                rep.count("szx_chunks", match c {
+                    Ck::Crtr => "CRTR", Ck::Z80r => "Z80R", Ck::Spcr => "SPCR", Ck::Ay => "AY", Ck::Keyb(_) => "KEYB",
+                    Ck::Amxm(_) => "AMXM", Ck::Ramp(_, Comp::Raw) => "RAMP raw", Ck::Ramp(_, Comp::Stored) => "RAMP stored-deflate",
+                    Ck::Ramp(_, Comp::Fixed) => "RAMP fixed-huffman", Ck::Unknown(..) => "unknown",
+                });
+            }
+            rep.count("szx_first_chunk", format!("{:?}", s.order[0]).split('(').next().unwrap_or("").to_string());
+        }
+        if k < 3 {
+            rep.sample(J::s(case.text()));
+        }
+        let fs = check_case(&mut cx, &case, Some(&mut rep));
+        for f in &fs {
+            rep.count("disagreements", format!("{}/{}/{:?}", f.phase, f.group, f.kind));
+        }
+        for f in &fs {
+            let tag = format!("{}/{}/{}/{:?}/{}{}", case.kind(), f.phase, f.group, f.kind, case.file_m128(), case.recv.m128);
+            if rep.distribution.get("shrunk").map_or(false, |m| m.get(&tag).copied().unwrap_or(0) >= 1) {
+                continue;
+            }
+            rep.count("shrunk", tag);
+            record(&mut cx, &mut rep, &case, f);
+        }
+    }
+    rep.extra.push(("cases".into(), J::I(n as i64)));
+    rep.extra.push(("model_requests".into(), J::I(cx.model.requests as i64)));
+    rep.extra.push(("fixes_detected".into(), J::I(fx as i64)));
     rep
+}
+
+fn fx_text(fx: u32) -> String {
+    let names = ["hlAlt", "unlockOnLoad", "resetCpuOnLoad", "pureSave48", "rejectMismatch", "ayWriteThrough", "szxBorderDevice", "haltedPc"];
+    names.iter().enumerate().map(|(i, n)| format!("{}={}", n, (fx >> i) & 1)).collect::<Vec<_>>().join(" ")
+}
+
+/// C13's probes plus one probe per SZX/AY repair
+pub fn detect_fixes() -> (u32, Vec<String>) {
+    let (mut fx, notes) = crate::c13::detect_fixes();
+    let mut st = MState::fresh(true);
+    st.ay = Some(AyState { sel: 0, regs: { let mut g = [0u8; 16]; g[0] = 100; g[7] = 0x3E; g[8] = 0x0F; g }, enabled: true });
+    st.border = 2;
+    st.halt = true;
+    st.w[11] = 0x9000;
+    st.poke(0x9000, 0x76);
+    let spec = SzxSpec { mid: 2, st, fe: 0x05, cycles: 0, memptr: 0, fset: false,
+        order: vec![Ck::Z80r, Ck::Spcr, Ck::Ay, Ck::Ramp(2, Comp::Raw)] };
+    let (bytes, _) = spec.encode();
+    let mut fresh = MState::fresh(true);
+    fresh.ay = Some(AyState { sel: 0, regs: [0; 16], enabled: true });
+    let mut e = build(&fresh);
+    if load_szx(&mut e, &bytes) == Outcome::Ok {
+        if e.verif_cpu().regs.get_pc() == 0x9000 {
+            fx |= 128;
+        }
+        let o = observe_all(&mut e, true, None, &[0; 16]);
+        if o.get("audio").map_or(false, |a| a == "mid") {
+            fx |= 32;
+        }
+        if o.get("bdev").map_or(false, |b| b == "02") {
+            fx |= 64;
+        }
+    }
+    (fx, notes)
+}
+
+// ---------------------------------------------------------------------------------------------
+// shrinking and recording
+
+fn features(case: &Case) -> String {
+    let mut f: Vec<String> = vec![];
+    let canon_order = |s: &SzxSpec| -> bool {
+        // canonical: Z80R, SPCR, (AY), pages ascending raw, nothing else
+        let mut want = vec![Ck::Z80r, Ck::Spcr];
+        if s.order.contains(&Ck::Ay) {
+            want.push(Ck::Ay);
+        }
+        let mut pages: Vec<u8> = s.order.iter().filter_map(|c| if let Ck::Ramp(p, _) = c { Some(*p) } else { None }).collect();
+        pages.sort();
+        for p in pages {
+            want.push(Ck::Ramp(p, Comp::Raw));
+        }
+        let have: Vec<Ck> = s.order.iter().filter(|c| !matches!(c, Ck::Keyb(_) | Ck::Amxm(_) | Ck::Unknown(..) | Ck::Crtr)).map(|c| match c { Ck::Ramp(p, _) => Ck::Ramp(*p, Comp::Raw), o => o.clone() }).collect();
+        have == want
+    };
+    let state_feats = |st: &MState, tag: &str, f: &mut Vec<String>| {
+        let d = MState::fresh(st.m128);
+        let mut w = st.w;
+        if w[10] == 0x8000 { w[10] = 0; }
+        if w[11] != 0 && !(st.halt && w[11] == 0x9000) { f.push(format!("{}.pc", tag)); }
+        w[11] = 0;
+        if w != d.w || st.i != 0 || st.r != 0 || st.im != 0 { f.push(format!("{}.regs", tag)); }
+        if st.iff1 || st.iff2 { f.push(format!("{}.iff", tag)); }
+        if st.halt { f.push(format!("{}.halted", tag)); }
+        if st.skip { f.push(format!("{}.eilast", tag)); }
+        if st.pfx != 0 { f.push(format!("{}.pfx", tag)); }
+        if st.border != 0 { f.push(format!("{}.border", tag)); }
+        if st.locked() { f.push(format!("{}.locked", tag)); } else if st.latch != 0 { f.push(format!("{}.paging", tag)); }
+        if st.banks.iter().any(|b| b.seed != 0 || (!b.ov.is_empty() && !st.halt)) { f.push(format!("{}.ram", tag)); }
+        if let Some(a) = &st.ay {
+            if a.regs != [0; 16] { f.push(format!("{}.ay", tag)); }
+            if a.enabled && a.sel != 0 { f.push(format!("{}.aysel", tag)); }
+            if !a.enabled && st.m128 { f.push(format!("{}.ay-off", tag)); }
+            if a.enabled && !st.m128 { f.push(format!("{}.ay-on", tag)); }
+        }
+        if st.mouse { f.push(format!("{}.mouse", tag)); }
+        if st.kemp { f.push(format!("{}.kemp", tag)); }
+    };
+    match &case.file {
+        FileSpec::Szx(s) => {
+            state_feats(&s.st, "file", &mut f);
+            if s.fe & 7 != s.st.border { f.push("file.fe-border".into()); }
+            if s.fe & 0x18 != 0 { f.push("file.fe-sound".into()); }
+            if !canon_order(s) { f.push("file.order".into()); }
+            if s.order.iter().any(|c| matches!(c, Ck::Ramp(_, Comp::Stored))) { f.push("file.stored".into()); }
+            if s.order.iter().any(|c| matches!(c, Ck::Ramp(_, Comp::Fixed))) { f.push("file.huffman".into()); }
+            if s.order.iter().any(|c| matches!(c, Ck::Unknown(..))) { f.push("file.unknown".into()); }
+            if s.order.iter().any(|c| matches!(c, Ck::Keyb(_))) { f.push("file.keyb".into()); }
+            if s.order.iter().any(|c| matches!(c, Ck::Amxm(_))) { f.push("file.amxm".into()); }
+            if s.order.contains(&Ck::Crtr) { f.push("file.crtr".into()); }
+            let np = s.order.iter().filter(|c| matches!(c, Ck::Ramp(..))).count();
+            if np != if s.mid >= 2 { 8 } else { 3 } { f.push("file.pages-missing".into()); }
+        }
+        FileSpec::Sna(s) => state_feats(s, "file", &mut f),
+        FileSpec::Scr(_) => {}
+    }
+    state_feats(&case.recv, "recv", &mut f);
+    f.join("+")
+}
+
+fn has(fs: &[Finding], phase: &str, group: &str, kind: Kind) -> bool {
+    fs.iter().any(|f| f.phase == phase && f.group == group && f.kind == kind)
+}
+
+fn canonical_order(c: &mut Case) {
+    if let FileSpec::Szx(s) = &mut c.file {
+        let mut o: Vec<Ck> = vec![];
+        for want in [Ck::Crtr, Ck::Z80r, Ck::Spcr, Ck::Ay] {
+            if s.order.contains(&want) {
+                o.push(want);
+            }
+        }
+        for k in &s.order {
+            if matches!(k, Ck::Keyb(_) | Ck::Amxm(_)) {
+                o.push(k.clone());
+            }
+        }
+        let mut pages: Vec<Ck> = s.order.iter().filter(|k| matches!(k, Ck::Ramp(..))).cloned().collect();
+        pages.sort_by_key(|k| if let Ck::Ramp(p, _) = k { *p } else { 0 });
+        o.extend(pages);
+        for k in &s.order {
+            if matches!(k, Ck::Unknown(..)) {
+                o.push(k.clone());
+            }
+        }
+        s.order = o;
+    }
+}
+
+fn shrink(cx: &mut Ctx, case: &Case, phase: &str, group: &str, kind: Kind) -> Case {
+    let mut cur = case.clone();
+    let mut steps: Vec<Box<dyn Fn(&mut Case)>> = vec![];
+    // RAM first (cheap candidates afterwards)
+    steps.push(Box::new(|c| {
+        c.recv.banks = MState::fresh(c.recv.m128).banks;
+        match &mut c.file {
+            FileSpec::Szx(s) => {
+                let keep: Vec<(u16, u8)> = vec![];
+                let _ = keep;
+                s.st.banks = MState::fresh(s.st.m128).banks;
+                if s.st.halt {
+                    let pc = s.st.pc();
+                    s.st.poke(pc, 0x76);
+                    s.st.poke(pc.wrapping_add(1), 0x3C);
+                }
+            }
+            FileSpec::Sna(s) => s.banks = MState::fresh(s.m128).banks,
+            FileSpec::Scr(_) => {}
+        }
+    }));
+    steps.push(Box::new(|c| {
+        let ay = c.recv.ay.clone();
+        let (mouse, kemp) = (c.recv.mouse, c.recv.kemp);
+        c.recv = MState::fresh(c.recv.m128);
+        c.recv.ay = ay.map(|a| AyState { sel: 0, regs: [0; 16], enabled: a.enabled });
+        c.recv.mouse = mouse;
+        c.recv.kemp = kemp;
+    }));
+    steps.push(Box::new(|c| c.recv.banks = MState::fresh(c.recv.m128).banks));
+    steps.push(Box::new(|c| { c.recv.w = [0; 12]; c.recv.i = 0; c.recv.r = 0; c.recv.iff1 = false; c.recv.iff2 = false; c.recv.im = 0; }));
+    steps.push(Box::new(|c| c.recv.halt = false));
+    steps.push(Box::new(|c| c.recv.skip = false));
+    steps.push(Box::new(|c| c.recv.pfx = 0));
+    steps.push(Box::new(|c| c.recv.border = 0));
+    steps.push(Box::new(|c| c.recv.latch = 0));
+    steps.push(Box::new(|c| c.recv.latch &= 0x20));
+    steps.push(Box::new(|c| c.recv.mouse = false));
+    steps.push(Box::new(|c| c.recv.kemp = false));
+    steps.push(Box::new(|c| if let Some(a) = &mut c.recv.ay { a.regs = [0; 16]; a.sel = 0; }));
+    steps.push(Box::new(|c| if let Some(a) = &mut c.recv.ay { a.sel = 0; }));
+    steps.push(Box::new(|c| if let Some(a) = &mut c.recv.ay { a.enabled = c.recv.m128; }));
+    // file structure
+    steps.push(Box::new(|c| if let FileSpec::Szx(s) = &mut c.file { s.order.retain(|k| !matches!(k, Ck::Unknown(..))); }));
+    steps.push(Box::new(|c| if let FileSpec::Szx(s) = &mut c.file { s.order.retain(|k| !matches!(k, Ck::Crtr)); }));
+    steps.push(Box::new(|c| if let FileSpec::Szx(s) = &mut c.file { s.order.retain(|k| !matches!(k, Ck::Keyb(_))); }));
+    steps.push(Box::new(|c| if let FileSpec::Szx(s) = &mut c.file { if !s.st.mouse { s.order.retain(|k| !matches!(k, Ck::Amxm(_))); } }));
+    steps.push(Box::new(|c| if let FileSpec::Szx(s) = &mut c.file { for k in s.order.iter_mut() { if let Ck::Ramp(p, _) = k { *k = Ck::Ramp(*p, Comp::Raw); } } }));
+    steps.push(Box::new(canonical_order));
+    steps.push(Box::new(|c| if let FileSpec::Szx(s) = &mut c.file { s.fe = s.st.border; }));
+    steps.push(Box::new(|c| if let FileSpec::Szx(s) = &mut c.file { s.fe &= 7; }));
+    steps.push(Box::new(|c| if let FileSpec::Szx(s) = &mut c.file { s.cycles = 0; s.memptr = 0; s.fset = false; }));
+    steps.push(Box::new(|c| if let FileSpec::Szx(s) = &mut c.file {
+        let all: Vec<u8> = if s.mid >= 2 { (0..8).collect() } else { vec![0, 2, 5] };
+        for p in all { if !s.order.iter().any(|k| matches!(k, Ck::Ramp(q, _) if *q == p)) { s.order.push(Ck::Ramp(p, Comp::Raw)); } }
+    }));
+    steps.push(Box::new(|c| if let FileSpec::Szx(s) = &mut c.file { s.order.retain(|k| !matches!(k, Ck::Amxm(_))); s.st.mouse = false; }));
+    steps.push(Box::new(|c| if let FileSpec::Szx(s) = &mut c.file { s.order.retain(|k| !matches!(k, Ck::Ay)); }));
+    steps.push(Box::new(|c| if let FileSpec::Szx(s) = &mut c.file { let m = s.mid >= 2; if let Some(a) = &mut s.st.ay { a.enabled = m; } }));
+    steps.push(Box::new(canonical_order));
+    // file state
+    fn st_of(c: &mut Case) -> Option<&mut MState> {
+        match &mut c.file {
+            FileSpec::Szx(s) => Some(&mut s.st),
+            FileSpec::Sna(s) => Some(s),
+            FileSpec::Scr(_) => None,
+        }
+    }
+    steps.push(Box::new(|c| if let Some(s) = st_of(c) { s.halt = false; }));
+    steps.push(Box::new(|c| if let Some(s) = st_of(c) { if !s.halt { for b in s.banks.iter_mut() { b.ov.clear(); } } }));
+    steps.push(Box::new(|c| if let Some(s) = st_of(c) { s.skip = false; }));
+    steps.push(Box::new(|c| if let Some(s) = st_of(c) { s.border = 0; }));
+    steps.push(Box::new(|c| if let FileSpec::Szx(s) = &mut c.file { s.fe = s.st.border; }));
+    steps.push(Box::new(|c| if let Some(s) = st_of(c) { s.latch = 0; }));
+    steps.push(Box::new(|c| if let Some(s) = st_of(c) { s.latch &= 0x27; }));
+    steps.push(Box::new(|c| if let Some(s) = st_of(c) { s.iff1 = false; s.iff2 = false; }));
+    steps.push(Box::new(|c| if let Some(s) = st_of(c) { let (sp, pc) = (s.w[10], s.w[11]); s.w = [0; 12]; s.w[10] = sp; s.w[11] = pc; s.i = 0; s.r = 0; s.im = 0; }));
+    steps.push(Box::new(|c| if let Some(s) = st_of(c) { s.w[10] = 0x8000; }));
+    steps.push(Box::new(|c| if let Some(s) = st_of(c) { if !s.halt { s.w[11] = 0; } }));
+    steps.push(Box::new(|c| if let FileSpec::Szx(s) = &mut c.file { if s.st.halt {
+        for b in s.st.banks.iter_mut() { b.ov.clear(); }
+        s.st.w[11] = 0x9000;
+        s.st.poke(0x9000, 0x76);
+        s.st.poke(0x9001, 0x3C);
+    } }));
+    steps.push(Box::new(|c| if let Some(s) = st_of(c) { if let Some(a) = &mut s.ay { a.regs = [0; 16]; a.sel = 0; } }));
+    steps.push(Box::new(|c| if let Some(s) = st_of(c) { if let Some(a) = &mut s.ay { a.sel = 0; } }));
+    steps.push(Box::new(|c| if let FileSpec::Szx(s) = &mut c.file { if !s.st.mouse { return; } s.st.mouse = false; for k in s.order.iter_mut() { if let Ck::Amxm(_) = k { *k = Ck::Amxm(0); } } }));
+    for s in &steps {
+        let mut c = cur.clone();
+        s(&mut c);
+        if c.text() == cur.text() {
+            continue;
+        }
+        if has(&check_case(cx, &c, None), phase, group, kind) {
+            cur = c;
+        }
+    }
+    cur
+}
+
+fn record(cx: &mut Ctx, rep: &mut Report, case: &Case, f: &Finding) {
+    let small = shrink(cx, case, f.phase, &f.group, f.kind);
+    let fs = check_case(cx, &small, None);
+    let f2 = fs.iter().find(|g| g.phase == f.phase && g.group == f.group && g.kind == f.kind).cloned().unwrap_or_else(|| f.clone());
+    let key = format!(
+        "C14/{}/{}/{}/{}-into-{}/{}",
+        small.kind(),
+        f2.phase,
+        f2.group,
+        if small.file_m128() { "128k" } else { "48k" },
+        if small.recv.m128 { "128k" } else { "48k" },
+        features(&small)
+    );
+    rep.violation(Violation {
+        kind: f2.kind,
+        key,
+        what: format!(
+            "{} {} {}: real code gives {} but {} says {} (case: {})",
+            small.kind(), f2.phase, f2.group, f2.got,
+            if f2.kind == Kind::SpecViolated { "the spec" } else { "the Lean model" },
+            f2.want, small.text()
+        ),
+        correspondence: "corr.C14.load (Model.Snapshot.szxLoad/snaLoad/scrLoad vs Emulator::load_snapshot/load_screen)".into(),
+        case: J::obj(vec![("text", J::s(small.text()))]),
+        implementation: f2.got.clone(),
+        expected: f2.want.clone(),
+    });
 }
